@@ -100,6 +100,9 @@ ASSUMPTIONS = [
     "behaviour outside the reader models (Err.exotic: backward seek, non-ASCII header / name text, allocation of >= 2^31 bytes from "
     "a garbage key, a put with a negative row or column, rdop2record with N larger than the record = uninitialised memory, "
     "rdop2mats(names=[]) = StopIteration) is skipped and counted, only on malformed files / ill-posed calls",
+    "on a truncated binary OUTPUT4 file the reader model reports struct.error (the short read) also where pyYeti raises ValueError / "
+    "IndexError a moment earlier because the put of a complex string cut to an odd number of reals fails first (the model applies the "
+    "puts after the read); counted as rd4:truncated-put-raises-before-the-short-read, both sides raise",
     "op4 sample files with a matrix of more than 2e7 elements are read sparsely only (both sides); in the quick tier sample files "
     "above 400 kB (op4) / 3 MB (op2) are left to the thorough tier",
 ]
@@ -1677,6 +1680,13 @@ def _op4_reader_streams(ctx, op4, drv, sc, encoded4):
                 ctx.disagree("rd4:named:dict-raises", {"case": _jsonable_case(desc["case"]), "namelist": nl}, repr(e), "a dictionary")
         os.remove(p)
         dj = dict(desc, case=_jsonable_case(desc["case"]))
+        if (stream == "rd4:malformed-truncated" and model == ("err", "struct") and isinstance(impl, tuple) and impl[0] == "err"
+                and impl[1] in ("value", "index")):
+            # pyYeti puts every string into the matrix as soon as it is read, the model collects the puts and applies them
+            # after the read: on a file cut inside a string read by numpy.fromfile (which returns the values that are
+            # there) an odd number of reals of a complex string makes the put raise before the short read is noticed
+            ctx.count("rd4:truncated-put-raises-before-the-short-read")
+            continue
         if _rd4_compare(ctx, stream, dj, impl, model):
             if isinstance(model, tuple):
                 ctx.count("rd4:raises-" + model[1])
@@ -2375,6 +2385,11 @@ def search(ctx, hints):
             if isinstance(c, dict) and c.get("kind") in ("op4bin", "op2"):
                 cases.append(_from_json(c))
         rng = ctx.rng
+        # fixed cases (every run): a 64-bit table record holding a negative key, read with every form (the family of
+        # finding op2-rdop2record-uint-i64-struct-format-stays-signed), and its 32-bit twin
+        for b64 in (True, False):
+            cases.append({"kind": "op2", "endian": "l", "bit64": b64, "date": [1, 2, 3], "label": "PYYETI",
+                          "blocks": [{"t": "t", "name": "TAB1", "trailer": [101, 0, 0, 0, 0, 0, 0], "records": [[[5, -1, 7, 8]], [[1, 2, 3], [4, -5, 6, 7]]]}]})
         for rep in range(ctx.pick(1, 3)):
             for rows, lay, neg in _boundary_layouts():
                 single = rng.random() < 0.5
